@@ -21,7 +21,7 @@ package trickle
 //@   prop C08 C07
 //@   arith int-assumed
 //@   requires db != nil && node != nil && childCount(node) == 0 && db.maxlinks >= 1
-//@   modifies childCount(node), exhausted(db)
+//@   modifies childCount(node), exhausted(db), recorded(node)
 //@   loop 0 invariant[full_depths] depth >= 1 && (exhausted(db) || childCount(node) == db.maxlinks + depthRepeat * (depth - 1))
 //@   loop 0 invariant[never_wider] childCount(node) <= db.maxlinks + depthRepeat * (depth - 1) && (maxDepth >= 1 ==> depth <= maxDepth)
 //@   loop 1 invariant[position] 0 <= repeatIndex && repeatIndex <= depthRepeat && childCount(node) == db.maxlinks + depthRepeat * (depth - 1) + repeatIndex
@@ -29,6 +29,7 @@ package trickle
 //@   loop 0 invariant[monotone_end] old(exhausted(db)) ==> exhausted(db)
 //@   loop 1 invariant[monotone_end] old(exhausted(db)) ==> exhausted(db)
 //@   ensures[monotone_end] old(exhausted(db)) ==> exhausted(db)
+//@   ensures[a_dag_pb_node] err == nil ==> typeis(filledNode, "*dag.ProtoNode")
 //@   ensures[width_bound] err == nil && maxDepth >= 1 ==> childCount(node) <= db.maxlinks + depthRepeat * (maxDepth - 1)
 
 // ---- C08: every sub-tree Append creates or refills gets the depth of its position ------------
@@ -41,7 +42,7 @@ package trickle
 //@   arith int-assumed
 //@   requires db != nil && fsn != nil && db.maxlinks >= 1 && childCount(fsn) >= 0
 //@   requires[position] childCount(fsn) >= db.maxlinks ==> depthRepeat * (depth - 1) + repeatNumber == childCount(fsn) - db.maxlinks && 0 <= repeatNumber && repeatNumber < depthRepeat
-//@   modifies childCount(fsn), exhausted(db)
+//@   modifies childCount(fsn), exhausted(db), recorded(fsn)
 //@   site[last_child_depth] call:appendRec : depthOfLast(fsn, db, arg3)
 //@   loop 0 invariant[position] old(repeatNumber) <= repeatNumber && 0 <= repeatNumber && repeatNumber <= depthRepeat && childCount(fsn) == db.maxlinks + depthRepeat * (depth - 1) + repeatNumber
 //@   loop 0 invariant[monotone_end] old(exhausted(db)) ==> exhausted(db)
@@ -56,7 +57,7 @@ package trickle
 //@   arith int-assumed
 //@   requires db != nil && fsn != nil && db.maxlinks >= 1 && childCount(fsn) >= 0
 //@   requires[real_depth] maxDepth >= 1
-//@   modifies childCount(fsn), exhausted(db)
+//@   modifies childCount(fsn), exhausted(db), recorded(fsn)
 //@   loop 0 invariant[full_depths] i >= 1 && (exhausted(db) || childCount(fsn) == db.maxlinks + depthRepeat * (i - 1))
 //@   loop 1 invariant[position] i >= 1 && 0 <= j && j <= depthRepeat && i < maxDepth && childCount(fsn) == db.maxlinks + depthRepeat * (i - 1) + j
 //@   site[new_subtree_depth] call:fillTrickleRec : depthOfNext(fsn, db, arg2) && arg2 < maxDepth
@@ -74,3 +75,10 @@ package trickle
 //@   loop 0 invariant[full_depths] i >= 1 && (exhausted(db) || childCount(fsn) == db.maxlinks + depthRepeat * (i - 1))
 //@   loop 1 invariant[position] i >= 1 && 0 <= j && j <= depthRepeat && childCount(fsn) == db.maxlinks + depthRepeat * (i - 1) + j
 //@   site[new_subtree_depth] call:fillTrickleRec : depthOfNext(fsn, db, arg2)
+
+// ---- C07: the trickle root is always a UnixFS (dag-pb) node, so it can carry mode and mtime ----
+//@ func Layout
+//@   prop C07
+//@   arith int
+//@   requires db != nil && db.maxlinks >= 1
+//@   modifies all
